@@ -406,6 +406,7 @@ def _mutation_events(tid0):
             qa = [q_from_float(a) if a.ndim == 3 else quaternion.as_quat_array(a.copy()) for a in cur]
             before = [sha(a) for a in qa]
             np.random.seed(5)
+            g0, e0, w0 = sha(np.asarray(np.random.get_state()[1])) + str(np.random.get_state()[2]), dict(np.geterr()), list(warnings.filters)
             try:
                 with contextlib.redirect_stdout(io.StringIO()):
                     f(*qa)
@@ -414,7 +415,13 @@ def _mutation_events(tid0):
             except Exception:
                 if not vname.startswith("leading-"):
                     raise       # boundary sizes may be outside a routine's domain (target rank 2 of a 1 x 1 matrix)
-            ev.append({"tid": tid, "ev": "Mutation", "fn": name, "variant": vname, "args_unchanged": [sha(a) for a in qa] == before})
+            g1 = sha(np.asarray(np.random.get_state()[1])) + str(np.random.get_state()[2])
+            # process-wide state: a routine that does not draw random numbers leaves the global generator alone; nobody leaves
+            # numpy's error state or the warning filters changed (mechanism clauses: reported as drift)
+            ev.append({"tid": tid, "ev": "Mutation", "fn": name, "variant": vname, "args_unchanged": [sha(a) for a in qa] == before,
+                       "generator_untouched": g1 == g0 or name.startswith(RANDOMIZED), "errstate_restored": dict(np.geterr()) == e0 and list(warnings.filters) == w0})
+            np.seterr(**e0)
+            warnings.filters[:] = w0
             if vname == "dense":
                 # what a call RETURNS belongs to the caller: after the caller has overwritten the returned arrays in place,
                 # the same call (same values, fresh argument objects) must still return the same result (no cache or
@@ -579,6 +586,9 @@ def _stale_events(tid0):
             same = False
         ev.append({"tid": tid, "ev": "Stale", "fn": name, "same": bool(same)})
     return ev
+
+
+RANDOMIZED = ("RSP", "Hybrid", "rand_qsvd", "pass_eff", "power_iteration", "CGNE", "DeepLinear", "quat_null", "quat_kernel")     # may draw from the global generator
 
 
 # ---- histories over RELATED arguments: what a call returns is a function of its arguments only, whatever was computed
